@@ -182,6 +182,24 @@ def gen_law(rng, cfg):
 
 
 def run(ctx, res):
+    if getattr(ctx, "replay", None):
+        nnm.run_replay(ctx, res, None)
+        inp = (ctx.replay.get("violation") or {}).get("input") or {}
+        if "cfg" in inp and ("population" in inp or "count_a" in inp or "support" in inp):
+            cfg = nnm.cfg_from_json(inp["cfg"])
+            if "population" in inp:
+                v, runs = wor_oracle(ctx.rng, cfg, [nnm.unjson(x) for x in inp["population"]])
+            elif "count_a" in inp:
+                v, runs = wor_oracle_two(cfg, int(inp["N"]), int(inp["count_a"]), nnm.unjson(inp["a"]), nnm.unjson(inp["b"]))
+            else:
+                v, runs = iid_oracle(ctx.rng, cfg, [nnm.unjson(x) for x in inp["support"]], [nnm.unjson(x) for x in inp["probs"]], int(inp["n"]))
+            res.oracle_runs += runs
+            res.evaluations += 1
+            res.nontrivial.add("replayed population")
+            if v:
+                res.oracle_violations.append({"what": f"{cfg['kind']}: rejection frequency under the null exceeds alpha (replayed input)",
+                                              "input": inp, "observed": v, "signature": f"C01:replay:{cfg['kind']}"})
+        return
     cases, cr = nnm.run_corr(ctx.pid, ctx.rng, ctx.n(700, 10000), maxlen=ctx.n(12, 14))
     res.corr.append(("NonnegMean.test/estim/bet vs NNM.run_test", cr, nnm.case_json))
     res.evaluations += len(cases)
